@@ -28,7 +28,15 @@ def build(ck):
     ck.forbid_scan()
     ck.build_proofs(PROP_MODULES, driver="drv_c03")
     h = ck.cc(os.path.join(ck.bdir, "h"), [os.path.join(vf.HARNESS, PID, "h.c")] + REPO_SRCS, libs=["-lm"])
-    return [h], [ck.driver_path("drv_c03")]
+    # Which code is under test?  Repair F38 (json_list_append / json_dict_put refuse a container
+    # that is the target itself or one of its ancestors) is a proposed hardening: the model has
+    # both behaviours (Build.lean, parameter `cyc`) and every theorem about builder histories is
+    # proved for both.  Probe the implementation once and run the matching model.
+    rc, out, _ = ck.run([h], input_text="#case\nlist\nappend 0 0\n", timeout=60)
+    lines = out.split("\n")
+    has_check = len(lines) >= 3 and lines[2].startswith("ret 0")
+    ck.cov["attach_cycle_check_F38"] = "present" if has_check else "absent"
+    return [h], [ck.driver_path("drv_c03")] + ([] if has_check else ["--no-cycle-check"])
 
 
 # ------------------------------------------------------------------ value generators
@@ -397,6 +405,12 @@ def parse_case(rng, depth):
     return ops
 
 
+def big_key_cases():
+    """JSON_MAX_KEY boundary: a 1 MiB name is accepted, one byte more is refused ("Too large key")"""
+    k0 = "61" * (1 << 20)
+    return [["dict", "put_null 0 " + k0, "put_int 0 " + k0 + "62 1", "put_null 0 " + k0[:-2], "size 0"]]
+
+
 def bad_doc_cases():
     return [["parse %s -" % vf.hexs(d), "size 0"] for d in BAD_DOCS]
 
@@ -493,6 +507,7 @@ def run(ck):
     go(scalar_sweep_cases(rng, "float"), "sweep-float")
     go(scalar_sweep_cases(rng, "str"), "sweep-str")
     go(bad_doc_cases(), "bad-docs")
+    go(big_key_cases(), "big-key")
     n = ck.scale(6000, 200000) * mult
     trees = [tree_case(rng, 1 + rng.below(6), 1 + rng.below(5)) for _ in range(n)]
     go(trees, "trees")
